@@ -11,6 +11,12 @@
    kind 2 (codec)       input : [2; nc; ns; size] ++ ns*nc samples (row-major)
                         output: enc_zlist bounds ++ enc_list (enc_zlist payload_k)
                                 ++ enc_zlist (decode (encode data)), zip = unzip = identity
+   kind 3 (one Reader object)
+                        input : [3; n; nc; zc; nch; ns0; f0] ++ ops   f0 1=.bin 2=.cbin; op 0=open()
+                                1/2=compress_file keep/in place, 3/4=decompress_file keep/in place, 5=to_scratch
+                        output: [#ops] ++ per op [raised; file; nbytes; ns; raw; warned; bin exists; cbin exists]
+                                ++ [file a fresh Reader(x.meta) would resolve to]
+                                raw 0=None 1=memmap 2=mtscomp 3=closed
    state quadruple: [0;0;0;0] absent, [1;j;0;0] partial with j chunks,
                     [2;t;r;c] complete with tag t (1 Orig 2 Comp 3 Hdr 4 MetaOf). *)
 From Coq Require Import ZArith List Bool.
@@ -101,6 +107,24 @@ Definition run_codec (nc ns size : Z) (data : list Z) : list Z :=
   ++ enc_list (fun c => enc_zlist (snd c)) enc
   ++ enc_zlist (concat (decode_file idz ncn enc)).
 
+(* ---- kind 3 ---- *)
+Definition dec_rop (z : Z) : rop :=
+  if z =? 0 then ROpen else if z =? 1 then RCompress true else if z =? 2 then RCompress false
+  else if z =? 3 then RDecompress true else if z =? 4 then RDecompress false else RScratch.
+Definition enc_raw (k : rawk) : Z :=
+  match k with RawNone => 0 | RawMemmap => 1 | RawMtscomp => 2 | RawClosed => 3 end.
+Definition enc_rstate (x : rstate * bool) : list Z :=
+  let '(s, e) := x in
+  let o := s_obj s in
+  [enc_bool e; enc_file (Some (o_file o)); o_nbytes o; o_ns o; enc_raw (o_raw o);
+   enc_bool (o_warn o); enc_bool (s_eb s); enc_bool (s_ec s)].
+Definition run_obj (n nc zc nch ns0 f0 : Z) (ops : list Z) : list Z :=
+  let w := mkW n nc zc nch in
+  let s0 := r_start w (if f0 =? 1 then DBin else DCbin) ns0 in
+  let tr := r_run w s0 (map dec_rop ops) in
+  let sf := last (map fst tr) s0 in
+  Z.of_nat (length tr) :: flat_map enc_rstate tr ++ [enc_file (resolve (s_eb sf) (s_ec sf) EMeta)].
+
 Definition run (inp : list Z) : list Z :=
   match inp with
   | [0; eb; ec; em; ech; e] =>
@@ -109,6 +133,7 @@ Definition run (inp : list Z) : list Z :=
   | 1 :: opk :: r :: c :: m :: B :: keep :: chk :: ow :: sd :: fault :: st =>
       run_fs opk r c m B keep chk ow sd fault st
   | 2 :: nc :: ns :: size :: data => run_codec nc ns size data
+  | 3 :: n :: nc :: zc :: nch :: ns0 :: f0 :: ops => run_obj n nc zc nch ns0 f0 ops
   | _ => [-999]
   end.
 
